@@ -282,7 +282,8 @@ def multi_pool(r):
 
 PHONES = ['(0) 644444444', '(0)1134960009', '0161 496 0123', '+44 20 7946 0958', '(020) 7946 0958', '1-800-555-1234', '+86 138 0013 8000', '(06) 12345678',
           '+31 6 12345678', '+49 30 123456', '+33 1 23 45 67 89', '(11) 91234-5678', '400-123-4567', '555-1234', '+1 (206) 555-1234']
-EDGE_CONTEXTS = ['{}', 'x {}', '{} y', 'call  {}  now', 'tel:\t{}', '{}\n', '\n{}', '\u00a0{}\u00a0', '({})', '"{}"', '{},', ' {} ', 'a\t{}\tb', '{} .', '- {} -']
+LONG_FILL = 'the quick brown fox jumps over the lazy dog while nobody is looking ; '
+EDGE_CONTEXTS = [LONG_FILL * 24 + '{}', '{} ' + LONG_FILL * 24, LONG_FILL * 12 + '{} ' + LONG_FILL * 12, '{}', 'x {}', '{} y', 'call  {}  now', 'tel:\t{}', '{}\n', '\n{}', '\u00a0{}\u00a0', '({})', '"{}"', '{},', ' {} ', 'a\t{}\tb', '{} .', '- {} -']
 FILLERS = [' and then ', ' , also ', ' ; we saw ', ' but not ', ' . Later ', ' while ']
 
 
@@ -316,6 +317,17 @@ CULT_MOD_EXPR = {
     'de-de': ['seit etwa 15 Uhr', 'seit 15 Uhr', 'vor dem 5. Mai', 'nach 15 Uhr', 'seit ungefähr dem 5. Mai', 'bis etwa 15 Uhr', 'gegen 15 Uhr'],
     'it-it': ['da circa le 15', 'dalle 15', 'prima del 5 maggio', 'dopo le 15', 'da circa il 5 maggio', 'fino alle 15 circa', 'verso le 15'],
 }
+# culture -> (trailing modifier phrases, leading modifier phrases, simple date-time expressions, joins)
+MOD_PAIRS = {
+    'en-us': (['or later', 'or earlier', 'or after', 'or before', 'and later'], ['before', 'after', 'since', 'until', 'around'],
+              ['monday', 'friday', '2010', '2015', '3 pm', '5 pm', 'tomorrow', 'May 5', 'next week', '10:30'], [', and ', ' , as well as ', ' ; ', ' and also ']),
+    'es-es': (['o más tarde', 'o después', 'o antes'], ['antes de', 'después de', 'desde'], ['el lunes', 'el viernes', 'las 3 pm', 'las 5 pm', '2010', 'mañana'], [', o ', ' ; ', ' y también ']),
+    'fr-fr': (['ou plus tard', 'ou après', 'ou avant'], ['avant', 'après', 'depuis'], ['lundi', 'vendredi', '15h', '17h', '2010', 'demain'], [', ou ', ' ; ', ' et aussi ']),
+    'pt-br': (['ou mais tarde', 'ou depois', 'ou antes'], ['antes de', 'depois de', 'desde'], ['segunda-feira', 'sexta-feira', '15h', '17h', '2010', 'amanhã'], [', ou ', ' ; ', ' e também ']),
+    'it-it': (['o più tardi', 'o dopo', 'o prima'], ['prima di', 'dopo', 'da'], ['lunedì', 'venerdì', 'le 15', 'le 17', '2010', 'domani'], [', o ', ' ; ', ' e anche ']),
+    'de-de': (['oder später', 'oder danach', 'oder früher'], ['vor', 'nach', 'seit'], ['Montag', 'Freitag', '15 Uhr', '17 Uhr', '2010', 'morgen'], [', oder ', ' ; ', ' und auch ']),
+    'nl-nl': (['of later', 'of daarna', 'of eerder'], ['voor', 'na', 'sinds'], ['maandag', 'vrijdag', '15.00', '17.00', '2010', 'morgen'], [', of ', ' ; ', ' en ook ']),
+}
 UNITPAIR_CULTURES = ['en-us', 'es-es', 'fr-fr', 'pt-br', 'it-it', 'de-de', 'nl-nl']
 UNITPAIR_DIMS = {'en-us': ['km', 'meters', 'miles', 'kg', 'pounds', 'liters', 'feet', 'inches'], 'de-de': ['km', 'Meter', 'kg', 'Liter', 'Zentimeter'],
                  'es-es': ['km', 'metros', 'kg', 'litros'], 'fr-fr': ['km', 'mètres', 'kg', 'litres'], 'it-it': ['km', 'metri', 'kg', 'litri'],
@@ -340,6 +352,7 @@ def plan(pid, tier, seed):
             jobs.append({'name': 'edge-%d' % s, 'kind': 'edge', 'shard': s, 'weight': 2})
         for cu in UNITPAIR_CULTURES:
             jobs.append({'name': 'unitpairs-%s' % cu, 'kind': 'unitpairs', 'culture': cu, 'weight': 2})
+        jobs.append({'name': 'suffixpairs', 'kind': 'suffixpairs', 'weight': 2})
         for cu in CULTURES:
             sh = 1 if tier == 'quick' else 3
             for s in range(sh):
@@ -620,6 +633,26 @@ def run(pid, job, ctx):
                             lib.call(m, mt, q, dt.datetime(2016, 11, 7, 10, 30))
                         except Exception:
                             pass
+    elif kind == 'suffixpairs':
+        # the SAME trailing (or leading) modifier phrase on two or three entities of one sentence: '<a> or later, and <b> or later'
+        r = ctx.rng('suffixpairs')
+        n = 25 if ctx.tier == 'quick' else 300
+        for cu, (sufs, pres, bases, joins) in MOD_PAIRS.items():
+            models = [(mt, m) for rn, mt, c, m in lib.models_for(culture=cu) if mt == 'DateTimeModel']
+            for _ in range(n):
+                k = r.choice([2, 2, 3])
+                parts = r.sample(bases, k)
+                if r.random() < 0.7:
+                    suf = r.choice(sufs)
+                    q = r.choice(joins).join('%s %s' % (p, suf) for p in parts)
+                else:
+                    pre = r.choice(pres)
+                    q = r.choice(joins).join('%s %s' % (pre, p) for p in parts)
+                for mt, m in models:
+                    try:
+                        lib.call(m, mt, q, dtlib.rand_ref(r))
+                    except Exception:
+                        pass
     elif kind == 'modifiers':
         # one or two modifiers (before / after / since / until class x around class) in front of a date, time, date-time or period:
         # the value shape follows the modifier (start / end / both), in English and in the cultures' own words
